@@ -1593,3 +1593,30 @@ Lemma ex_llmnr_asymmetry :
   map (fun n => (nt_ip n, n_llmnr (nt_names n), n_mdns (nt_names n))) (chan s) =
   [ (IP4 3232235521, 7, 8); (IP4 3232235522, 0, 8) ].
 Proof. vm_compute. reflexivity. Qed.
+
+(* ------------------------------------------------------------------ *)
+(* the converse of the contents clause, on the reference: whenever a unit changes the learned names of an
+   address, a notification about that address is emitted by the unit or owed after it *)
+Lemma created_not_current a m k : created a m k = true -> currentb a m k = false.
+Proof. unfold created, currentb. destruct (a k) as [e|]; auto. destruct (a_mac e =? m); simpl; auto; discriminate. Qed.
+
+Theorem names_change_owed c r u x :
+  r_names (rnext c r u) x <> r_names r x ->
+  due c r u x <> [] \/ existsb (ip_eqb x) (r_owed (rnext c r u)) = true.
+Proof.
+  destruct u as [f now|now|kd k name|m k name now|m k|]; cbn [rnext due]; try (intros H; exfalso; apply H; reflexivity).
+  - destruct (ref_event c f) as [[m k]|].
+    + cbn [r_names]. intros H. destruct (ip_eqb x k && created (r_map r) m k) eqn:E; [|exfalso; apply H; reflexivity].
+      apply andb_prop in E. destruct E as [E1 E2]. left. rewrite E1. rewrite (created_not_current _ _ _ E2). discriminate.
+    + destruct (dhcp_target r f); intros H; exfalso; apply H; reflexivity.
+  - destruct (name_changes r kd k name); [|intros H; exfalso; apply H; reflexivity].
+    cbn [r_names r_owed]. intros H. right. destruct (ip_eqb x k) eqn:E; [|exfalso; apply H; reflexivity].
+    cbn [existsb]. rewrite E. reflexivity.
+  - destruct (is_valid k && negb (is_unspecified k)); [|intros H; exfalso; apply H; reflexivity].
+    cbn [r_names r_owed]. intros H. right. destruct (ip_eqb x k) eqn:E; [|exfalso; apply H; reflexivity].
+    ipeq. subst x. rewrite existsb_app. apply orb_true_iff. left.
+    destruct (upd_changed r m k name) eqn:CH.
+    + rewrite orb_true_r. cbn [existsb]. rewrite ip_eqb_refl. reflexivity.
+    + unfold upd_base in H. destruct (created (r_map r) m k) eqn:CR; [|exfalso; apply H; reflexivity].
+      rewrite (created_not_current _ _ _ CR). cbn [negb orb existsb]. rewrite ip_eqb_refl. reflexivity.
+Qed.
